@@ -43,6 +43,16 @@ func lowerName(name string) (string, error) {
 	return name, nil
 }
 
+// clipName shortens a name taken from the wire for a message: a field name may
+// be 64K characters long and an error chain (or the debug log) repeats it at
+// every level of nesting
+func clipName(name string) string {
+	if len(name) > 64 {
+		return name[:64] + "..."
+	}
+	return name
+}
+
 func capitalizeName(name string) string {
 	if name[0] >= 'A' && name[0] <= 'Z' {
 		return name
